@@ -25,15 +25,17 @@ add = Fn(F, ["impl OsIpcReceiverSet", "add"], ret="r", extra_params=TS,
     ensures=[
         Clause("unix.set.add/ensures.fresh_increasing_id",
                "r matches Ok(id) ==> id == old(self).incrementor.start && final(self).incrementor.start == id + 1\n"
-               "&& (forall|t: Token| #[trigger] old(self).pollfds@.contains_key(t) ==> old(self).pollfds@[t].id != id)", ["C06"]),
+               "&& (forall|t: Token| #[trigger] old(self).pollfds@.contains_key(t) ==> old(self).pollfds@[t].id != id)", ["C06", "C07"]),
         Clause("unix.set.add/ensures.member_registered_under_its_id",
                "r matches Ok(id) ==> final(self).pollfds@ == old(self).pollfds@.insert(Token(cell_val(&receiver.fd) as usize), PollEntry { id: id, fd: cell_val(&receiver.fd) })\n"
                "&& final(s).registered == old(s).registered.insert(Token(cell_val(&receiver.fd) as usize), cell_val(&receiver.fd))", ["C06"]),
         Clause("unix.set.add/ensures.wf", "r is Ok ==> final(self).wf(*final(s))", ["C06", "C11"]),
         Clause("unix.set.add/ensures.failed_add_leaves_set_unchanged", "r is Err ==> final(self).pollfds@ == old(self).pollfds@ && final(s).registered == old(s).registered", ["C06"]),
+        Clause("unix.set.add/ensures.failed_add_leaves_descriptor_with_its_receiver",
+               "(r is Err ==> final(s).taken == old(s).taken) && (r is Ok ==> final(s).taken == old(s).taken.insert(cell_val(&receiver.fd)) && final(s).open.contains(cell_val(&receiver.fd)))", ["C11"]),
     ],
     hints=[Hint("body:start", "proof { broadcast use axiom_token_key_model; }")],
-    rules=[R_REGISTER], safety_props=["C18", "C06"])
+    rules=[R_REGISTER, AppendArg("B26", r"receiver\.consume_fd\(", S, "Cell::set stub that records the descriptor leaving its owning receiver", min_count=1)], safety_props=["C18", "C06"])
 
 WF0 = ("old(self).wf(s0) && pf0 == old(self).pollfds@ && rx0 == s0.rx")
 SUB = "(forall|t: Token| #[trigger] self.pollfds@.contains_key(t) ==> pf0.contains_key(t) && self.pollfds@[t] == pf0[t])"
@@ -87,7 +89,7 @@ select = Fn(F, ["impl OsIpcReceiverSet", "select"], ret="r", extra_params=TS,
                        "forall|i: int| rx0.len() <= i < s.rx.len() && (#[trigger] s.rx[i]) is Closed ==> !s.open.contains(s.rx[i]->Closed_0)", ["C06", "C11", "C12"]),
              ],
              ensures=[
-                Clause("unix.set.select/loop2.ensures.drained_until_would_block_or_closed", "s.drained.contains(poll_entry.fd)", ["C06"])]),
+                Clause("unix.set.select/loop2.ensures.drained_until_would_block_or_closed", "s.drained.contains(poll_entry.fd)", ["C06", "C12", "C02"])]),
     },
     hints=[
         Hint("body:start", "let ghost s0 = *s;\nlet ghost pf0 = self.pollfds@;\nlet ghost rx0 = s.rx;\nproof { broadcast use axiom_token_key_model; }"),
@@ -108,7 +110,7 @@ UNIT = Unit(
     name="u5_set",
     prelude=["units/common.rs", "units/u5_set.rs"],
     groups=[("impl OsIpcReceiverSet", [add, select])],
-    props=["C06", "C11", "C12"],
+    props=["C02", "C06", "C07", "C11", "C12"],
     prelude_clauses={
         "unix.set.add/requires.id_counter_not_exhausted": [],
         "unix.set.deregister/requires.registered": ["C06", "C11"],
